@@ -66,6 +66,7 @@ func checkC16(c *Check, a *Anchors) {
 	fieldNotClobberedOnError(c, a, "field-not-clobbered-on-error")
 	lockReleasedOnEveryExit(c, a, "lock-released-on-every-exit")
 	errorsNotSwallowed(c, a)
+	errorBranchExits(c, a, "error-branch-exits")
 	recursionReviewed(c, a, "recursion-reviewed") // termination of loading / merging / compiling: the recursions are the only unbounded construct besides the reviewed loops
 }
 
